@@ -287,3 +287,88 @@ func bigString(n int, tag string) string {
 	}
 	return b.String()[:n]
 }
+
+// History is what happened on the provider instance before the request under test: the service provider SP of the case was
+// registered differently at first (Earlier; the case's spec holds the registration in force now), used the IdP successfully
+// (Warmups), and was then re-registered - or deregistered (Removed). Whatever the IdP remembers from the warm-up, only the
+// storage's current content counts for the request under test.
+type History struct {
+	SP      int           `json:"sp"`
+	Earlier *world.SPSpec `json:"earlier_registration,omitempty"`
+	Removed bool          `json:"deregistered_afterwards,omitempty"`
+	Warmups []string      `json:"warmups,omitempty"` // sso | attrquery | logout | metadata
+}
+
+// buildWithHistory builds the world of spec and plays the history on it.
+func buildWithHistory(spec world.Spec, h *History, host string) *world.World {
+	if h == nil {
+		return mustBuild(spec)
+	}
+	first := spec
+	first.SPs = append([]world.SPSpec(nil), spec.SPs...)
+	if h.Earlier != nil {
+		first.SPs[h.SP] = *h.Earlier
+	}
+	w := mustBuild(first)
+	playWarmups(w, first, h.SP, host, h.Warmups)
+	switch {
+	case h.Removed:
+		w.Store.RemoveSP(spec.SPs[h.SP].EntityID)
+	case h.Earlier != nil:
+		if err := w.Store.ReplaceSP(spec.SPs[h.SP]); err != nil {
+			panic("harness: re-registration failed: " + err.Error())
+		}
+	}
+	w.Store.ResetLog()
+	return w
+}
+
+// playWarmups sends valid requests of service provider sp (signed with its registered key when the configuration asks for it).
+func playWarmups(w *world.World, spec world.Spec, sp int, host string, kinds []string) {
+	s := spec.SPs[sp]
+	wr := func(n *xt.Node) []byte { return xt.Write(n, plainStyle.W) }
+	for i, k := range kinds {
+		var hr obs.HTTPReq
+		switch k {
+		case "sso":
+			a := spsim.NewAuthnReq(fmt.Sprintf("_warmup-%d", i), s.EntityID)
+			tree := a.Tree(plainStyle)
+			if signingRequired(spec, sp) && len(s.KeyNames) > 0 {
+				if err := spsim.SignTree(tree, spsim.Signing{Alg: world.AlgRSASHA256, KeyName: s.KeyNames[0], KeyInfo: true, CertLayout: "plain", DSPrefix: "ds"}); err != nil {
+					panic(err)
+				}
+			}
+			hr, _, _ = spsim.Encode(spec.IdP.Route("sso"), wr(tree), spsim.Transport{Binding: "post", Plus: true, Encoding: A, RelayState: "warmup"}, nil)
+		case "attrquery":
+			q := spsim.NewAttrQuery(fmt.Sprintf("_warmupq-%d", i), s.EntityID, "login0@users.example")
+			hr, _, _ = spsim.Encode(spec.IdP.Route("attribute"), wr(spsim.Envelope(q.QueryTree(plainStyle), "soap")), spsim.Transport{Binding: "soap"}, nil)
+		case "logout":
+			l := spsim.NewLogoutReq(fmt.Sprintf("_warmupl-%d", i), s.EntityID, "usermark0")
+			hr, _, _ = spsim.Encode(spec.IdP.Route("slo"), wr(l.Tree(plainStyle)), spsim.Transport{Binding: "post", Plus: true, Encoding: A, RelayState: "warmup"}, nil)
+		default:
+			hr = obs.HTTPReq{Method: "GET", Path: spec.IdP.Route("metadata")}
+		}
+		hr.Host = host
+		obs.Do(w.Handler, hr)
+	}
+}
+
+// genHistory draws a history for service provider sp of spec: an earlier registration that differs in what the caller's
+// tweak changes, or a later deregistration.
+func genHistory(t *rapid.T, spec world.Spec, sp int, tweak func(*world.SPSpec), allowRemoved bool) *History {
+	h := &History{SP: sp}
+	n := rapid.IntRange(1, 3).Draw(t, "nwarmups")
+	for i := 0; i < n; i++ {
+		h.Warmups = append(h.Warmups, rapid.SampledFrom([]string{"sso", "sso", "attrquery", "logout", "metadata"}).Draw(t, "warmup"))
+	}
+	if allowRemoved && rapid.Bool().Draw(t, "removed") {
+		h.Removed = true
+		return h
+	}
+	e := spec.SPs[sp]
+	e.ACS = append([]world.ACSSpec(nil), e.ACS...)
+	e.KeyNames = append([]string(nil), e.KeyNames...)
+	tweak(&e)
+	h.Earlier = &e
+	return h
+}
